@@ -134,6 +134,15 @@ Inductive G :=
 | ThenWithCtx (a b : G)
 | MapCtx (f : fn1) (a : G)
 | JustCfg (ts : list tok)           (* just(ts).configure(|cfg, ctx| cfg.seq(toks ctx)) *)
+(* memoization and recursion *)
+| Memo (id : nat) (a : G)           (* a.memoized(); id stands for the address of the inner parser *)
+| Rec (a : G)                       (* recursive(|p| a) / Recursive::declare + define; Var 0 is p *)
+| Var (k : nat)                     (* de Bruijn reference to the k-th enclosing Rec *)
+| Pratt (atom : G) (ops : list pop) (* atom.pratt(ops): operators are tried in list order *)
+with pop :=
+| PInfix (rassoc : bool) (bp : nat) (og : G) (k : nat)
+| PPrefix (bp : nat) (og : G) (k : nat)
+| PPostfix (bp : nat) (og : G) (k : nat)
 with IT :=
 | IRep (a : G) (lo : nat) (hi : option nat)
 | ISep (a sep : G) (lo : nat) (hi : option nat) (lead trail : bool)
@@ -142,6 +151,20 @@ with IT :=
 | IMapWith (f : mw) (i : IT)
 | IOrNot (a : G)
 | IRepCfg (a : G) (lo : nat) (hi : option nat).  (* repeated().configure(|cfg, ctx| cfg.exactly(count ctx)) *)
+
+(* the lexical environment of a parser: the context value (ParserExtra::Context) and the
+   enclosing recursive definitions *)
+Record env := mkEnv { cval : val; crec : list G }.
+Definition env0 : env := mkEnv VUnit [].
+Definition with_ctx (e : env) (c : val) : env := mkEnv c (crec e).
+
+(* binding powers (pratt.rs Associativity::left_power / right_power) *)
+Definition lpow (r : bool) (bp : nat) : nat := if r then 2 * bp + 1 else 2 * bp.
+Definition rpow (r : bool) (bp : nat) : nat := if r then 2 * bp else 2 * bp + 1.
+(* the fold closures of the generated operator tables *)
+Definition pfold_infix (k : nat) (l op r : val) (sp : span) : val := VTag k (VList [l; op; r; VSpan (fst sp) (snd sp)]).
+Definition pfold_prefix (k : nat) (op r : val) (sp : span) : val := VTag k (VList [op; r; VSpan (fst sp) (snd sp)]).
+Definition pfold_postfix (k : nat) (l op : val) (sp : span) : val := VTag k (VList [l; op; VSpan (fst sp) (snd sp)]).
 
 (* derived forms, as in Rust *)
 Definition Lazy (a : G) : G := ThenIgnore a (RepUnit (IRep Any 0 None)).
